@@ -28,8 +28,12 @@ theorem delete_order : deleteOrder = ["[]string{hybrid, vector, text, metadata}"
 /-- `listSegments`: keyed on the hybrid_ file (the first created, the first deleted) -/
 theorem list_segments : listPrefix = ["strings.HasPrefix(name, \"hybrid_\")"] := by decide
 
-/-- `initCounter`: every file name with a `_` counts, orphans included -/
-theorem counter_init : counterConds = ["strings.Contains(name, \"_\")", "id > maxSegmentID"] := by decide
+/-- `initCounter`: every file name whose part after the first `_` is a number counts, orphans of any
+    kind included (call shapes over the function and its helpers) -/
+theorem counter_init :
+    counterParse = ["strings.Split(_, \"_\")", "strings.TrimSuffix(_, \".bin.gz\")",
+      "strings.TrimSuffix(_, \".bin\")", "strconv.ParseUint(_, 10, 64)", "_[1]"] ∧
+    counterKindFilter = [] ∧ counterMax = ["id > maxSegmentID"] := by decide
 
 /-- `openAll` then `readAll`: all four files are opened (in this order) before the one ReadFrom;
     the MultiReader is drained afterwards (`readAll … [] = (!prevCut, T)`), before the index is cached -/
